@@ -580,10 +580,8 @@ def precession_equatorial(
         start_ra.rad() + zeta.rad()
     ) + cos(theta.rad()) * sin(start_dec.rad())
     final_ra = atan2(a, b) + z.rad()
-    if abs(start_dec) > 85.0:  # Coordinates are close to the pole
-        final_dec = copysign(acos(min(1.0, sqrt(a * a + b * b))), c)
-    else:
-        final_dec = asin(c)
+    # atan2 keeps full precision also when the *final* position is close to a pole
+    final_dec = atan2(c, sqrt(a * a + b * b))
     # Convert results to Angles. Please note results are in radians
     final_ra = Angle(final_ra, radians=True)
     final_dec = Angle(final_dec, radians=True)
@@ -816,10 +814,8 @@ def precession_newcomb(
         start_ra.rad() + zeta.rad()
     ) + cos(theta.rad()) * sin(start_dec.rad())
     final_ra = atan2(a, b) + z.rad()
-    if abs(start_dec) > 85.0:  # Coordinates are close to the pole
-        final_dec = copysign(acos(min(1.0, sqrt(a * a + b * b))), c)
-    else:
-        final_dec = asin(c)
+    # atan2 keeps full precision also when the *final* position is close to a pole
+    final_dec = atan2(c, sqrt(a * a + b * b))
     # Convert results to Angles. Please note results are in radians
     final_ra = Angle(final_ra, radians=True)
     final_dec = Angle(final_dec, radians=True)
